@@ -1,11 +1,20 @@
 //! Shared engines for the engine-level checks (see /verif/DESIGN.md §3).
 pub mod ast;
 pub mod canon;
+pub mod diffrun;
 pub mod cases;
+pub mod chaos;
+pub mod dfapi;
 pub mod engine;
+pub mod exprgen;
+pub mod filetab;
+pub mod fnrep;
+pub mod planmon;
 pub mod qgen;
 pub mod refint;
 pub mod replay;
+pub mod shrink;
+pub mod sched;
 pub mod value;
 
 pub use vcommon;
